@@ -13,6 +13,7 @@ from scipy.linalg import inv, solve_triangular, svd, pascal, invpascal
 from scipy.optimize import nnls
 
 import abel
+from abel.tools.io import save_npy_atomic
 from abel.tools.vmi import Distributions
 from abel.tools.symmetry import put_image_quadrants
 
@@ -560,7 +561,7 @@ def _save_bs(basis_dir, Rmax, order, odd, bs, tri=False, verbose=False):
                                                     has_odd, has_inv)
     if verbose:
         print('Saving basis set to disk as', file_name)
-    np.save(os.path.join(basis_dir, file_name), out)
+    save_npy_atomic(os.path.join(basis_dir, file_name), out)
 
 
 def get_bs_cached(Rmax, order=2, odd=False, direction='inverse', reg=None,
